@@ -24,7 +24,7 @@ ASSUMPTIONS = ["targets are schedulers on the caller's running stack (the statem
 PROBES = ["extend_and_remove_same_cycle", "remove_not_yet_due", "remove_completed", "remove_self", "remove_ancestor",
           "remove_dodoer_with_children", "added_doer_recurred_next_pass", "extend_on_dodoer", "extend_present", "extend_dodoer_with_children", "remove_stranger"]
 BOUNDS = dict(quick=dict(nodes=10, depth=3, steps=6), thorough=dict(nodes=16, depth=4, steps=10))
-TIERS = dict(quick=dict(cases=20000, wall=40.0), thorough=dict(cases=1200000, wall=420.0))
+TIERS = dict(quick=dict(cases=40000, wall=60.0), thorough=dict(cases=1200000, wall=420.0))
 
 
 def feat_for(tier):
